@@ -350,9 +350,21 @@ class HTTPConnection(_HTTPConnection):
         if not method:
             raise ValueError("Method cannot be empty")
 
-        return super().putrequest(
-            method, url, skip_host=skip_host, skip_accept_encoding=skip_accept_encoding
-        )
+        # Inside a tunnel http.client computes the Host header from the tunnel
+        # host and, before CPython 3.12.3, puts an IPv6 address in brackets even
+        # if it already has them. Only the CONNECT request needs our brackets.
+        tunnel_host = self._tunnel_host
+        if tunnel_host and tunnel_host.startswith("[") and tunnel_host.endswith("]"):
+            self._tunnel_host = tunnel_host[1:-1]
+        try:
+            return super().putrequest(
+                method,
+                url,
+                skip_host=skip_host,
+                skip_accept_encoding=skip_accept_encoding,
+            )
+        finally:
+            self._tunnel_host = tunnel_host
 
     def putheader(self, header: str, *values: str) -> None:  # type: ignore[override]
         """"""
